@@ -75,12 +75,14 @@ func one(t *tape.Tape) (int, string) {
 	type op struct {
 		kind, x int
 		ref     pdf.Reference
+		seed    int
 	}
 	plans := make([][]op, nTasks)
 	for i := range plans {
 		for k := 0; k < 2+t.Draw(fmt.Sprintf("n%d", i), 6); k++ {
 			l := fmt.Sprintf("t%d.%d", i, k)
-			o := op{kind: t.Draw(l+".k", 8), x: t.Draw(l+".x", 2), ref: all[t.Draw(l+".r", len(all))]}
+			o := op{kind: t.Draw(l+".k", 9), x: t.Draw(l+".x", 2), ref: all[t.Draw(l+".r", len(all))]}
+			o.seed = t.Draw(l+".seed", 100)
 			if o.kind == 5 {
 				o.ref = d.Streams[t.Draw(l+".s", len(d.Streams))]
 			}
@@ -173,6 +175,27 @@ func one(t *tape.Tape) (int, string) {
 								}
 							}
 						}
+					}
+				case 8:
+					// independent Reader, stream without /Length (recovery path)
+					img, ref, body := c18doc.NoLengthFile(o.seed)
+					r2, err := pdf.NewReader(bytes.NewReader(img), int64(len(img)), nil)
+					if err != nil {
+						note("independent file: " + err.Error())
+						continue
+					}
+					var data []byte
+					obj, err := r2.Get(ref, true)
+					if stm, ok := obj.(*pdf.Stream); ok && err == nil {
+						if rc, err2 := pdf.DecodeStream(r2, nil, stm); err2 == nil {
+							data, err = io.ReadAll(rc)
+							rc.Close()
+						} else {
+							err = err2
+						}
+					}
+					if err != nil || !bytes.Equal(data, body) {
+						note(fmt.Sprintf("independent reader, stream without /Length: %d bytes instead of %d (err %v)", len(data), len(body), err))
 					}
 				default:
 					cmap.Predefined("Identity-H")
